@@ -15,7 +15,7 @@ ASSUMPTIONS = ["unwinding runs destructors (Rust's guarantee): a panicking handl
 
 
 def gen(tier, rng):
-    for x in plbase.gen_cases(tier, rng, kinds=["drop", "panic", "respond", "raw", "drop", "rawx", "chunked", "rawempty"]):
+    for x in plbase.gen_cases(tier, rng, kinds=["drop", "panic", "respond", "raw", "drop", "rawx", "chunked", "rawempty", "rawflush", "rawpanic"]):
         yield x
     # upgrade: the 101 answer, then the raw stream
     from convgen import AReq, cv_line, action_str
